@@ -99,7 +99,8 @@ func CheckdirCategory(dir CurrPath, recurse bool) {
 			}
 
 			mSubdirs = append(mSubdirs, subdir{sub, mkline})
-			if recurse && !mkline.IsCommentedVarassign() {
+			if recurse && !mkline.IsCommentedVarassign() &&
+				sub.Clean() != "." && !sub.ContainsPath("..") {
 				recurseInto = append(recurseInto, dir.JoinNoClean(sub))
 			}
 
